@@ -4,3 +4,6 @@ import DSymVerif.Props.C12
 #print axioms DSymVerif.C12.coset_tables_preorder
 #print axioms DSymVerif.C12.coset_tables_fuel_irrelevant
 #print axioms DSymVerif.C12.derived_table_extends
+#print axioms DSymVerif.C12.derived_table_sound
+#print axioms DSymVerif.C12.derived_table_rejects_only_on_conflict
+#print axioms DSymVerif.C12.search_states_inverse_consistent
